@@ -164,7 +164,8 @@ Definition hist_model (c : list param * list str * list call) : list (option val
                  dict(args=[5], kwargs=[], force=True, only=False, store=None),
                  dict(args=[6], kwargs=[], force=False, only=False, store=['given']),
                  dict(args=[6], kwargs=[], force=False, only=False, store=None)]
-        return [dict(sig=sig, ignore=[], calls=calls), dict(sig=sig, ignore=['c'], calls=calls)]
+        return [dict(sig=sig, ignore=[], calls=calls), dict(sig=sig, ignore=['c'], calls=calls),
+                dict(sig=sig, ignore=[], calls=calls, cache='json'), dict(sig=sig, ignore=['c'], calls=calls, cache='json')]
 
     def gen(self, rng, tier):
         out = []
@@ -181,15 +182,29 @@ Definition hist_model (c : list param * list str * list call) : list (option val
                 store = [rng.choice(VALUES + ['stored'])] if (not only and rng.random() < 0.12) else None
                 calls.append(dict(args=args, kwargs=kwargs, force=force, only=only, store=store))
             out.append(dict(sig=sig, ignore=ignore, calls=calls))
+            if rng.random() < 0.35:
+                out[-1]['cache'] = 'json'      # a file-backed cache given to the decorator
         return out
 
     def run_impl(self, case):
-        from taskchain.cache import cached, InMemoryCache, NO_VALUE
+        from taskchain.cache import cached, InMemoryCache, JsonCache, NO_VALUE
+        import shutil, tempfile
+        from pathlib import Path
+        file_backed = case.get('cache') == 'json'
+        tmp = tempfile.mkdtemp(prefix='tcverif-c16-') if file_backed else None
 
-        class Rec(InMemoryCache):
+        class Rec(JsonCache if file_backed else InMemoryCache):
             def __init__(self):
-                super().__init__()
+                if file_backed:
+                    super().__init__(Path(tmp) / 'cache', allow_nones=True)
+                else:
+                    super().__init__()
                 self.keys = []
+
+            def __len__(self):
+                if file_backed:
+                    return sum(1 for p in self.directory.rglob('*.json') if not p.name.startswith('tmp_'))
+                return super().__len__()
 
             def get(self, key):
                 self.keys.append(key)
@@ -223,7 +238,11 @@ Definition hist_model (c : list param * list str * list call) : list (option val
                 ctl['store_cache_value'] = c['store'][0]
             r = o.m(*c['args'], **dict(c['kwargs']), **ctl)
             results.append(NOVAL if r is NO_VALUE else [r])
-        return dict(results=results, executions=o.count, keys=[json.loads(k) for k in rec.keys], entries=len(rec))
+        try:
+            return dict(results=results, executions=o.count, keys=[json.loads(k) for k in rec.keys], entries=len(rec))
+        finally:
+            if tmp:
+                shutil.rmtree(tmp, ignore_errors=True)
 
     def encode(self, case, obs):
         calls = clist(['{| c_args := %s; c_kwargs := %s; c_force := %s; c_only := %s; c_store := %s |}' % (
